@@ -28,8 +28,9 @@ for c in cases:
             for ps in (False, True):
                 t = create_table(g, lr1, 1, ps, ps)
                 ser = json.dumps(table_to_serializable(t), sort_keys=True)
-                confl = sorted((x.state.state_id, x.term.fqn, [p.prod_id for p in x.productions])
-                               for x in t.sr_conflicts + t.rr_conflicts)
+                # in the order of the report (the lists an SRConflicts / RRConflicts exception carries)
+                confl = [(x.state.state_id, x.term.fqn, [p.prod_id for p in x.productions])
+                         for x in t.sr_conflicts + t.rr_conflicts]
                 out.append(hashlib.sha256((ser + repr(confl)).encode()).hexdigest()[:16])
         gp = GLRParser(g)
         for text in c["inputs"]:
@@ -41,6 +42,18 @@ for c in cases:
             except parglare.SyntaxError as e:
                 out.append("syntax%d:%s" % (e.location.start_position,
                                             ",".join(sorted(s.name for s in e.symbols_expected))))
+            except Exception as e:
+                out.append(type(e).__name__)
+        # all sentence prefixes: several accepted heads are merged into one forest
+        gpp = GLRParser(g, consume_input=False)
+        for text in c["inputs"][:12]:
+            try:
+                f = gpp.parse(text)
+                n = f.solutions
+                trees = [f[i].to_str() for i in range(min(n, 40))]
+                out.append(hashlib.sha256(("%d|" % n + "\n#\n".join(trees)).encode()).hexdigest()[:16])
+            except parglare.SyntaxError as e:
+                out.append("syntax%d" % e.location.start_position)
             except Exception as e:
                 out.append(type(e).__name__)
     except Exception as e:
